@@ -394,6 +394,29 @@ func hasNonXmlName(c store.Cursor) bool {
 	return false
 }
 
+// hasEmptyName: the subtree has an element or attribute whose local name is empty (the JSON member "")
+func hasEmptyName(c store.Cursor) bool {
+	switch v := c.Node().(type) {
+	case node.Element:
+		if v.Local() == "" {
+			return true
+		}
+	case node.Attribute:
+		return false // printed in its PI form: see piFormEncodable
+	}
+	for _, a := range c.Attributes() {
+		if a.Node().(node.Attribute).Local() == "" {
+			return true
+		}
+	}
+	for _, k := range c.Children() {
+		if _, ok := k.Node().(node.Element); ok && hasEmptyName(k) {
+			return true
+		}
+	}
+	return false
+}
+
 // piFormEncodable: encoding/xml refuses a processing instruction whose target is not an XML name or whose data contains "?>"
 func piFormEncodable(c store.Cursor) bool {
 	var target, val string
@@ -454,6 +477,26 @@ func famC20(rn *Runner) {
 		if r.Chance(1, 6) {
 			run.ftype = pick(r, []string{"xml", "html", "json"})
 		}
+		// the first cases are about what FOLLOWS a record that could not be printed: -m over a file with a node that the
+		// encoder refuses part-way (open findings), then ordinary files - their records must be exactly theirs
+		aftermath := ci < 12
+		if aftermath {
+			for _, f := range files {
+				os.Remove(filepath.Join(dir, f.rel))
+			}
+			files = []cliFile{
+				{rel: "a0.xml", content: cliXmlDocs[10]},
+				{rel: "b0.xml", content: cliXmlDocs[0]},
+				{rel: "c0.json", content: `{"a":{"x":1,"":2},"b":3}`},
+				{rel: "d0.xml", content: cliXmlDocs[6]},
+				{rel: "e0.xml", content: cliXmlDocs[11]},
+				{rel: "f0.xml", content: cliXmlDocs[1]},
+			}
+			for _, f := range files {
+				os.WriteFile(filepath.Join(dir, f.rel), []byte(f.content), 0o644)
+			}
+			run = &cliRun{all: ci%3 == 0, m: true, n: ci%4 == 3}
+		}
 		env := &Env{}
 		type ex struct {
 			text string
@@ -472,6 +515,9 @@ func famC20(rn *Runner) {
 			pa(true, dos, &Stp{Axis: "namespace", Test: NodeTest{Kind: "any"}}),
 		}
 		run.e = pick(r, exprs)
+		if aftermath {
+			run.e = []Expr{exprs[3], exprs[12], exprs[14], exprs[0]}[ci%4] // //@*, /*, //namespace::*, //a
+		}
 		run.expr = Render(run.e, RenderOpts{})
 		run.ns = [][2]string{{"p", "urn:u1"}}
 		env.NS = []NSBind{{"p", "urn:u1"}}
@@ -511,6 +557,9 @@ func famC20(rn *Runner) {
 		}
 		if len(targets) == 0 {
 			targets = []string{"."}
+		}
+		if aftermath {
+			targets = []string{"a0.xml", "b0.xml", "c0.json", "d0.xml", "e0.xml", "f0.xml"}
 		}
 		stdin := ""
 		if run.ftype != "" && r.Chance(1, 4) {
@@ -603,6 +652,16 @@ func famC20(rn *Runner) {
 			case xsel.NodeSet:
 				parts := []string{"(nodes"}
 				for _, x := range v {
+					if run.m && hasEmptyName(x) {
+						// open known finding C20-m-empty-name: encoding/xml refuses a start tag (or attribute) with no name - a JSON
+						// member named "" - part-way through the record; the command reports it and prints nothing more for this file
+						if rn.St.Known == nil {
+							rn.St.Known = map[string]int{}
+						}
+						rn.St.Known["C20-m-empty-name"]++
+						wantDiag++
+						break
+					}
 					if run.m && !piFormEncodable(x) {
 						// open known finding C20-m-pi-form-not-encodable: the command stops printing this file's records here
 						// and reports the encoder's error; the as-is expectation is the records before this node
